@@ -28,6 +28,10 @@ class KDThreeAugment(KDStochasticTransform):
         self.gaussian_blur.set_rng(rng)
         return super().set_rng(rng)
 
+    def _scale_strength(self, factor):
+        self.solarize.scale_strength(factor)
+        self.gaussian_blur.scale_strength(factor)
+
     def __call__(self, x, ctx=None):
         choice = self.rng.integers(3)
         if choice == 0:
